@@ -55,7 +55,10 @@ Digits(i, k, base) == IF k = 0 THEN <<>> ELSE <<Segs[(i % base) + 1]>> \o Digits
 RECURSIVE Pow(_, _)
 Pow(b, k) == IF k = 0 THEN 1 ELSE b * Pow(b, k - 1)
 RECURSIVE AllNames(_)
-AllNames(k) == IF k < 1 THEN <<<<"serverInfo">>, <<"rpc", "serverInfo">>, <<"rpc", "serverInfo", "a">>, <<"math", "Add">>, <<"math-v2", "Add">>, <<"math", "Mul">>, <<"a+", "y">>>>
+AllNames(k) == IF k < 1 THEN <<<<"serverInfo">>, <<"rpc", "serverInfo">>, <<"rpc", "serverInfo", "a">>, <<"math", "Add">>, <<"math-v2", "Add">>, <<"math", "Mul">>, <<"a+", "y">>,
+                                \* near misses of the one built-in name: reserved (method not found), never the built-in
+                                <<"rpc", "rpc", "serverInfo">>, <<"rpc", "", "serverInfo">>, <<"rpc", "cserverInfo">>, <<"rpc", "p", "r", "c", "serverInfo">>,
+                                <<"rpc", "serverinfo">>, <<"rpc", "serverInfo", "">>, <<"rpc", "serverInfoX">>, <<"rpcserverInfo">>, <<"RPC", "serverInfo">>>>
                ELSE AllNames(k - 1) \o [i \in 1..Pow(Len(Segs), k) |-> Digits(i - 1, k, Len(Segs))]
 
 Cell(m, b, n) == LET t == Target(Muxes[m], b, n) IN [mux |-> m, builtin |-> b, name |-> n, k |-> t.k, path |-> t.path]
